@@ -58,6 +58,10 @@ theorem keyboard_eof_exactly_once (ds rest : List Kb.Op) (hds : ∀ op ∈ ds, K
 theorem keyboard_eof_at_most_once_per_enabling (ops : List Kb.Op) : (Kb.run Kb.init ops).delivered ≤ Kb.enables ops :=
   Kb.delivered_le_enables ops
 
+/-- one end of input is not reported twice to a source that stayed enabled: EOF events never outnumber the switches from
+    disabled to enabled the worker could see -/
+theorem keyboard_eof_not_reported_twice (ops : List Kb.Op) : (Kb.run Kb.init ops).delivered ≤ Kb.edges ops := Kb.delivered_le_edges ops
+
 theorem disabled_keyboard_source_is_silent (ops : List Kb.Op) (h : ∀ op ∈ ops, op ≠ .set true) : (Kb.run Kb.init ops).delivered = 0 :=
   Kb.disabled_delivers_nothing ops h
 
